@@ -289,6 +289,8 @@ def run(ctx):
     rand_table_rule(ctx, prog)
     rand_index_rule(ctx, prog)
     fast_path_reserve(ctx, prog)
+    import codecrules
+    codecrules.unrle_walk(ctx, prog, 'C06', only=('runlen', 'more', 'ok', 'repeat'))
     c15.table_rule(ctx, prog, pfx='C06')
     witnesses(ctx, prog)
     expandrules.reorder_obligations(ctx, prog, 'C06', parts=('size', 'write'))
